@@ -1,5 +1,5 @@
 (* C06 -- Generated function bodies have sound control flow and define before use.  ONLY property theorems here. *)
-From QV Require Import model.Base model.Lang model.Types model.Tir model.CfgCheck model.Builder model.Passes model.TirCase gen.GenE0 proofs.CfgProofs proofs.BuilderInv proofs.BuilderSafe proofs.BuilderSafeSwitch proofs.BuilderCfg proofs.BuilderOpenCount.
+From QV Require Import model.Base model.Lang model.Types model.Tir model.CfgCheck model.Builder model.Passes model.TirCase gen.GenE0 proofs.CfgProofs proofs.BuilderInv proofs.BuilderSafe proofs.BuilderSafeSwitch proofs.BuilderCfg proofs.BuilderOpenCount spec.Typing proofs.ReturnType.
 Open Scope nat_scope.
 
 (* FULL statement (over ALL programs and class environments): every accepted binding or callback is translated to a
@@ -76,6 +76,29 @@ Theorem C06_walk_leaves_one_open_block : forall E cb env s, wf_callback cb = tru
   forall i b, i < List.length (bs_blocks s) - 1 -> nth_error (bs_blocks s) i = Some b -> b_term b <> None.
 Proof. exact walk_leaves_one_open. Qed.
 Print Assumptions C06_walk_leaves_one_open_block.
+
+(* the third clause at the level of the return statements, for EVERY body (any code, reachable or not): when the body is given a return type
+   (resolve_return_type of tir/core.rs -- a body without one is rejected with "cannot deduce return type"), every `return` of the body carries a
+   value assignable to that type.  So a value-returning body contains no bare `return`, and a void body returns no value.  Together with
+   C06_every_block_terminated: every block of an accepted value body ends in a jump, a typed return, or the unreachable marker. *)
+Theorem C06_every_return_fits_the_return_type : forall E c d t, resolve_return_type E c = Some d -> concrete d = Some t ->
+  Forall (fun a => spec_assignable E t (operand_tdesc a) = true) (return_operands c).
+Proof. exact return_type_sound. Qed.
+Print Assumptions C06_every_return_fits_the_return_type.
+
+Theorem C06_value_body_has_no_bare_return : forall E c d t, resolve_return_type E c = Some d -> concrete d = Some t -> t <> T_VOID ->
+  forall b, In b (c_blocks c) -> b_term b <> Some (TmReturn OVoid).
+Proof. exact value_body_has_no_bare_return. Qed.
+Print Assumptions C06_value_body_has_no_bare_return.
+
+Example C06_return_type_examples :
+  let blk t := {| b_stmts := []; b_compl := None; b_term := Some t |} in
+  let E := {| ce_classes := []; ce_enums := []; ce_objects := []; ce_this := None |} in
+  let code bl := {| c_blocks := bl; c_locals := [T_INT]; c_nparams := 0; c_sdeps := []; c_nobs := 0 |} in
+  resolve_return_type E (code [blk (TmReturn (OLocal 0 T_INT)); blk (TmReturn (OConst (CInt 3)))]) = Some (DConcrete T_INT) /\
+  resolve_return_type E (code [blk (TmReturn (OLocal 0 T_INT)); blk (TmReturn OVoid)]) = None /\
+  resolve_return_type E (code [blk (TmBr 1); blk (TmReturn OVoid)]) = Some (DConcrete T_VOID).
+Proof. vm_compute. repeat split; reflexivity. Qed.
 
 (* non-vacuity of the checker: it rejects a body whose reachable block ends in the unreachable marker, one that reads
    an unassigned temporary, and one that jumps out of range *)
